@@ -140,9 +140,10 @@ def body_kind(b):
         inner = agg_get(b, "0")
         if is_agg(inner):
             v = inner[3]
-            if v == "ExactLen":
+            els0 = agg_get(inner, "0")
+            if isinstance(els0, tuple) and els0 and els0[0] == "call" and els0[1] in _EXACTLEN_CTORS:
                 els = agg_get(inner, "0")
-                if isinstance(els, tuple) and els[0] == "call" and els[1].endswith("ExactLenStream::<D, E>::new"):
+                if isinstance(els, tuple) and els[0] == "call" and els[1] in _EXACTLEN_CTORS:
                     budget, stream = els[2][0], els[2][1]
                     d = {"kind": "exactlen", "budget": budget, "stream": stream}
                     if isinstance(stream, tuple) and stream[0] == "call" and stream[1].endswith("get_range"):
@@ -150,10 +151,13 @@ def body_kind(b):
                         d["entity"] = stream[2][0]
                     return d
                 return {"kind": "exactlen-unrecognised", "term": els}
-            if v == "Once":
+            if is_agg(els0) and els0[2] == "std::option::Option":
                 return {"kind": "once-agg", "term": inner}
             return {"kind": "stream:" + str(v), "term": inner}
     return {"kind": "unrecognised", "term": b}
+
+
+_EXACTLEN_CTORS = set()      # constructor functions of the length-checking stream (found by type in analyse())
 
 
 class Row:
@@ -243,6 +247,29 @@ def atom_name(t):
     return None
 
 
+def typed_leaves(ctx, v, depth=0):
+    """[(declared field type, term)] of an aggregate of a crate-local type, looking through nested crate-local records"""
+    out = []
+    a = ctx.facts.adts.get(v[2]) if is_agg(v) and v[1] == "adt" else None
+    if not a or not a.get("local") or depth > 3:
+        return [("?", v)]
+    var = None
+    for vv in a["variants"]:
+        if a["kind"] != "enum" or vv["name"] == v[3]:
+            var = vv
+    if var is None:
+        return [("?", v)]
+    tys = {f["name"]: f["ty"] for f in var["fields"]}
+    for name, x in v[4]:
+        ty = tys.get(name, "?")
+        sub = ctx.facts.adts.get(ty.split("<")[0])
+        if is_agg(x) and x[1] == "adt" and sub and sub.get("local") and sub["kind"] == "struct":
+            out += typed_leaves(ctx, x, depth + 1)
+        else:
+            out.append((ty, x))
+    return out
+
+
 def analyse(ctx):
     if hasattr(ctx, "_serve_model"):
         return ctx._serve_model
@@ -259,6 +286,13 @@ def analyse(ctx):
         if rs == "bool" and b_["arg_count"] == 2 and all(b_["locals"][i]["s"].endswith("[u8]") for i in (1, 2)):
             never.add(n_)
     inl = helper_inline(ctx, never=never)
+    from . import bodyrules as _BR
+    xadt = _BR.find_exactlen(ctx)[0]
+    _EXACTLEN_CTORS.clear()
+    for n_, b_ in ctx.facts.bodies.items():
+        f_ = ctx.facts.fns.get(n_, {})
+        if b_["kind"] in ("fn", "assocfn") and b_["locals"][0]["s"].split("<")[0] == xadt and (f_.get("impl_self") or "").split("<")[0] == xadt and not f_.get("impl_trait"):
+            _EXACTLEN_CTORS.add(n_)
     ib = ctx.facts.bodies[inner]
     METHOD_PARAMS.clear()
     for i in range(1, ib["arg_count"] + 1):
@@ -310,8 +344,14 @@ def analyse(ctx):
             r.method = "?"
         r.multipart = None
         resp = None
-        if r.variant == "Simple":
-            resp = agg_get(v, "0")
+        # the instruction's kind by what it carries, not by its name: a finished http::Response, or a response Builder plus
+        # the pieces of a multipart body (possibly grouped in a private record)
+        leaves = typed_leaves(ctx, v) if is_agg(v) else []
+        is_simple = len(leaves) == 1 and is_agg(leaves[0][1]) and leaves[0][1][2] == "http::Response" or \
+            (len(leaves) == 1 and leaves[0][0].startswith("http::Response<"))
+        is_multi = any(isinstance(x, tuple) and x and x[0] == "builder" for _, x in leaves) or any(ty == "http::response::Builder" for ty, _ in leaves)
+        if is_simple:
+            resp = leaves[0][1]
             if not (is_agg(resp) and resp[2] == "http::Response"):
                 r.ok = False
                 r.why = "response is not built from a recognised Builder chain: %s" % short(resp, 200)
@@ -322,8 +362,11 @@ def analyse(ctx):
             hd = agg_get(resp, "headers")
             r.headers = [(hdr_name(h[0]), h[1], h[2]) for h in hd[1]] if isinstance(hd, tuple) and hd[0] == "hdrs" else None
             r.body = body_kind(agg_get(resp, "body"))
-        elif r.variant == "Multipart":
-            b = agg_get(v, "res")
+        elif is_multi:
+            def leaf(pred):
+                xs = [x for ty, x in leaves if pred(ty)]
+                return xs[0] if len(xs) == 1 else None
+            b = leaf(lambda ty: ty == "http::response::Builder")
             if not (isinstance(b, tuple) and b[0] == "builder"):
                 r.ok = False
                 r.why = "multipart response builder not recognised: %s" % short(b, 200)
@@ -331,8 +374,8 @@ def analyse(ctx):
                 continue
             r.status = 200 if b[1] is None else (b[1][1] if is_const(b[1]) else b[1])
             r.headers = [(hdr_name(h[0]), h[1], h[2]) for h in b[2]]
-            r.body = {"kind": "multipart", "part_headers": agg_get(v, "part_headers"), "ranges": agg_get(v, "ranges"),
-                      "len": agg_get(v, "len")}
+            r.body = {"kind": "multipart", "part_headers": leaf(lambda ty: "Vec<std::vec::Vec<u8>>" in ty),
+                      "ranges": leaf(lambda ty: "Vec<std::ops::Range<u64>>" in ty), "len": leaf(lambda ty: ty == "u64")}
             r.tainted = b[3]
         else:
             r.ok = False
